@@ -161,7 +161,7 @@ func judgeC06(hst Hist) *h.Verdict {
 var rec *h.Recorder
 
 func genC06(t *rapid.T) Hist {
-	return genHist(t, genOpts{maxSubs: 2, maxSess: 1, minOps: 4, maxOps: h.Scale(20, 36), recharge: true, compliant: true, distinctRG: true, lowBalance: true, offline: true})
+	return genHist(t, genOpts{maxSubs: 2, maxSess: 1, minOps: 4, maxOps: h.Scale(20, 36), recharge: true, compliant: true, distinctRG: true, lowBalance: true, offline: true, bigCost: true})
 }
 
 func TestC06NoOverdraft(t *testing.T) {
